@@ -551,9 +551,53 @@ class Resolver:
                 for c in ot[1]:
                     out += [g for g in self.lookup_virtual(c, nm.a[0], True) if g not in out]
                 return out
+            if ot and ot[0] in ("inst", "class"):
+                # getattr(obj, TABLE[key]) / TABLE.get(key): a dispatch table of method names (class attribute or module constant)
+                names = self._table_strings(nm, ot[1], fa)
+                if names:
+                    for c in ot[1]:
+                        for nm_ in names:
+                            out += [g for g in self.lookup_virtual(c, nm_, True) if g not in out]
+                    return out
             if ot and ot[0] == "ext":
                 return self._numpy_protocol(t, ot[1] + ".<dynamic>", fa)
         return out
+
+    def _table_strings(self, nm, classes, fa):
+        """string values of the dict literal a name expression is looked up in: TABLE[key], TABLE.get(key[, default])"""
+        base = None
+        if nm.k == "sub":
+            base = nm.a[0]
+        elif nm.k == "call" and nm.a[0].k == "attr" and nm.a[0].a[1] == "get":
+            base = nm.a[0].a[0]
+        elif nm.k in ("phi", "ifexp"):
+            parts = list(nm.a[0]) if nm.k == "phi" else [nm.a[1], nm.a[2]]
+            out = []
+            for x in parts:
+                if x.k == "const" and isinstance(x.a[0], str):
+                    out.append(x.a[0])
+                else:
+                    out += self._table_strings(x, classes, fa)
+            return out
+        if base is None:
+            return []
+        d = None
+        if base.k == "attr" and base.a[0].k == "param":
+            for c in classes:
+                for k_ in c.mro():
+                    v = k_.attrs.get(base.a[1])
+                    if isinstance(v, ast.Dict):
+                        d = v
+                        break
+                if d is not None:
+                    break
+        elif base.k in ("global", "free"):
+            v = fa.func.module.assigns.get(base.a[0])
+            if isinstance(v, ast.Dict):
+                d = v
+        if d is None:
+            return []
+        return [v.value for v in d.values if isinstance(v, ast.Constant) and isinstance(v.value, str)]
 
     def _numpy_protocol(self, t, dotted, fa):
         """np.f(x, ...) with x a repo object -> its __array_function__ handler;
